@@ -38,7 +38,8 @@ def is_blank(v):
 
 
 # ------------------------------------------------------------------------- dict
-def to_dict(sheets, with_headers=True, fallback_form_name=None, keep_blank_rows=True):
+def to_dict(sheets, with_headers=True, fallback_form_name=None, keep_blank_rows=True, raw=False):
+    """raw=True passes text cells verbatim (no trimming / NBSP normalisation): what an API caller could hand over."""
     d = {"sheet_names": list(sheets)}
     for name, (hdrs, rows) in sheets.items():
         key = name.lower()
@@ -48,7 +49,7 @@ def to_dict(sheets, with_headers=True, fallback_form_name=None, keep_blank_rows=
         for r in rows:
             rd = {}
             for h, c in zip(hdrs, r):
-                t = canon_text(c)
+                t = c if (raw and isinstance(c, str) and c != "") else canon_text(c)
                 if t is not None and h is not None:
                     rd[h] = t
             if rd or keep_blank_rows:
